@@ -30,6 +30,11 @@ LIBNAME = "lib/shared.ucg"
 # a test file on disk: start-up indexing leaves *_test.ucg files out, the editor can still open and close them
 TESTNAME = "helper_test.ucg"
 TEST_TEXT = "let in_test_file = 1;\nlet tcfg = {n = 1};\n"
+# a file OUTSIDE the workspace root (start-up indexing never sees it), imported by documents as "../outside.ucg"
+OUTNAME = "../outside.ucg"
+OUT_TEXT = "let outer_n = 1;\nlet ocfg = {n = 1};\n"
+OUT_VARIANTS = [OUT_TEXT, OUT_TEXT.replace("= 1;", "= \"one\";", 1), "let outer_n = ;\n"]
+OVERLAYS = None
 TEST_VARIANTS = [TEST_TEXT, TEST_TEXT.replace("= 1;", "= \"one\";", 1), "let in_test_file = ;\n", TEST_TEXT + "assert {ok = true, desc = \"d\"};\n"]
 LIB_VARIANTS = [LIB, LIB.replace("let val = 7;", "let val = \"seven\";"), LIB.replace("port = 80", "prt = 80"), "let val = ;\n", "",
                 LIB.replace("let mk = func (x)", "let mk = func (x, y)"), LIB + "let extra = 1;\n", "let traceid = 1;\nlet val = 7;\n",
@@ -85,7 +90,9 @@ def rand_text(r, probe):
     if r.random() < 0.08:
         return nonascii_before_fault(r)
     if r.random() < 0.05:
-        return r.choice(["let h = import \"helper_test.ucg\";\nlet x = h.in_test_file + \"s\";\n", "let h = import \"helper_test.ucg\";\nlet y = h.in_test_file + 1;\nlet z = h.tcfg.n;\n",
+        return r.choice(["let o = import \"../outside.ucg\";\nlet y = o.outer_n + \"s\";\nlet z = o.ocfg.n;\nlet bad = o.nope;\n",
+                         "let o = import \"../outside.ucg\";\nlet y = o.outer_n + 1;\n",
+                         "let h = import \"helper_test.ucg\";\nlet x = h.in_test_file + \"s\";\n", "let h = import \"helper_test.ucg\";\nlet y = h.in_test_file + 1;\nlet z = h.tcfg.n;\n",
                          "let h = import \"helper_test.ucg\";\nlet lib = import \"lib/shared.ucg\";\nlet w = h.tcfg.n + lib.val;\nlet bad = h.nope;\n"])
     if r.random() < 0.08:
         return import_binding_text(r)
@@ -180,7 +187,7 @@ def range_ok(rng, text):
 
 
 def uri_of(root, name):
-    return "file://" + os.path.join(root, name)
+    return "file://" + os.path.normpath(os.path.join(root, name))
 
 
 def text_for_uri(uri, docs, root):
@@ -305,6 +312,7 @@ def run_session(r, probe, res, sid):
         open(os.path.join(root, "lib", "shared.ucg"), "w").write(LIB)
         open(os.path.join(root, "ondisk.ucg"), "w").write("let disk = 1;\nlet other = {a = disk};\n")
         open(os.path.join(root, TESTNAME), "w").write(TEST_TEXT)
+        open(os.path.normpath(os.path.join(root, OUTNAME)), "w").write(OUT_TEXT)
         names = ["doc%d.ucg" % i for i in range(r.randint(1, 3))]
         script = []
         if r.random() < 0.3:
@@ -325,7 +333,7 @@ def run_session(r, probe, res, sid):
         for k in range(nmsg):
             if r.random() < 0.12:
                 # the on-disk library the documents import is opened / edited (also into a broken text) / closed in the editor
-                oname, variants = (LIBNAME, LIB_VARIANTS) if r.random() < 0.7 else (TESTNAME, TEST_VARIANTS)
+                oname, variants = (LIBNAME, LIB_VARIANTS) if r.random() < 0.6 else r.choice([(TESTNAME, TEST_VARIANTS), (OUTNAME, OUT_VARIANTS)])
                 uri = uri_of(root, oname)
                 if docs.get(uri) is None:
                     text = r.choice(variants)
@@ -392,7 +400,7 @@ def run_session(r, probe, res, sid):
         if not failed and r.random() < 0.3:
             # sweep: every character position of the lines of one open document (bounded), completion / hover / definition in turn.
             # Positions that fall inside multi-byte characters (in either unit) only turn up this way.
-            open_docs = [(u, t) for u, t in docs.items() if t is not None and u not in (uri_of(root, LIBNAME), uri_of(root, TESTNAME))]
+            open_docs = [(u, t) for u, t in docs.items() if t is not None and u not in (uri_of(root, LIBNAME), uri_of(root, TESTNAME), uri_of(root, OUTNAME))]
             if open_docs:
                 suri, stext = r.choice(open_docs)
                 sname = os.path.relpath(suri[7:], root)
@@ -435,10 +443,10 @@ def run_session(r, probe, res, sid):
                         script.append(["didChange", os.path.relpath(u[7:], root), t])
                         client.notify("textDocument/didChange", {"textDocument": {"uri": u, "version": 999}, "contentChanges": [{"text": t}]})
                 res.count("sessions-with-session-document-imports")
-        if not failed and any(sc[1] in (LIBNAME, TESTNAME) for sc in script):
+        if not failed and any(sc[1] in (LIBNAME, TESTNAME, OUTNAME) for sc in script):
             # the editor overlay of the library goes away: from here on only the disk counts again.  Every open document
             # is then touched (same text, new version) so that its diagnostics are recomputed after the close.
-            for oname in (LIBNAME, TESTNAME):
+            for oname in (LIBNAME, TESTNAME, OUTNAME):
                 luri = uri_of(root, oname)
                 if docs.get(luri) is not None:
                     script.append(["didClose", oname])
@@ -572,6 +580,7 @@ def replay_script(script):
         open(os.path.join(root, "lib", "shared.ucg"), "w").write(LIB)
         open(os.path.join(root, "ondisk.ucg"), "w").write("let disk = 1;\nlet other = {a = disk};\n")
         open(os.path.join(root, TESTNAME), "w").write(TEST_TEXT)
+        open(os.path.normpath(os.path.join(root, OUTNAME)), "w").write(OUT_TEXT)
         for s in script:
             if s[0] == "disk":
                 open(os.path.join(root, s[1]), "w").write(s[2])
